@@ -43,7 +43,8 @@ PROPS = {
                 "every legal move are compared with the independent mailbox oracle. C01/synth: synthetic odd-material positions. "
                 "C01/perft: differential divide-perft depth 2 (quick) / 2-3 (thorough). C01/perftbin: the real cmd/perft binary built from the working tree, depth 1-3 on generated roots, against the oracle's node counts. Non-trivial = distinct positions (placement, "
                 "side, rights, e.p.) where pseudo-legal != legal (pin, check evasion, king walking into attack) or a castle / e.p. / "
-                "promotion is pseudo-legally available; perft: subtree > 100 nodes. evaluations = positions judged.",
+                "promotion is pseudo-legally available; perft: subtree > 100 nodes. evaluations = positions judged. "
+                "One synthetic position in 25 comes from gen.ManyMoves (9-18 queens plus rooks, bishops, knights, hill-climbed for mobility; labels count positions with more than 150 / 218 / 256 pseudo-legal moves). C01/parallel: 2-8 goroutines generate the legal and pseudo-legal moves of different positions at the same time, each list judged against the rules.",
         "assumptions": COMMON_ASSUMPTIONS + ["only the side to move is judged; for e.p. the capture field may be unset or Pawn (documented 'not set')"],
         "level_text": "Exploration: tens of thousands of positions per quick run, each compared move-by-move (set equality both "
                       "directions, duplicates, legality flag, metadata) with an oracle that shares no code with the repository; "
